@@ -95,6 +95,15 @@ SHAPES = {
     "state-in": _g({"type": "stateIn", "params": {"state": "#m.a"}}),
     "names-only-in-state-ondone": {"id": "m", "initial": "p", "states": {
         "p": {"initial": "x", "onDone": {"target": "q", "actions": ["afterAll"], "guard": "allGood"}, "states": {"x": {"on": {"GO": "y"}}, "y": {"type": "final"}}}, "q": {}}},
+    # names referenced only below a state declared final: a `final` state with children (loaded as compound by the
+    # engine) and a final leaf that still carries handlers
+    "names-only-under-final-with-children": {"id": "m", "initial": "a", "states": {"a": {"on": {"GO": "f"}}, "f": {"type": "final", "initial": "x", "states": {
+        "x": {"entry": ["deepEntry"], "on": {"NEXT": {"target": "y", "guard": "deepGuard", "actions": ["deepAct"]}}}, "y": {}}}}},
+    "names-only-on-final-leaf-handlers": {"id": "m", "initial": "a", "states": {"a": {"on": {"GO": "f"}}, "f": {"type": "final", "entry": ["finEntry"],
+        "on": {"PING": {"actions": ["finAct"], "guard": "finGuard"}}}}},
+    "several-names-of-each-kind": {"id": "m", "initial": "a", "states": {"a": {"entry": ["zeta", "alpha", "mid"], "on": {
+        "GO": [{"target": "b", "guard": "gZ", "actions": ["beta"]}, {"target": "b", "guard": "gA"}, {"target": "b", "guard": "gM"}]},
+        "invoke": [{"id": "i1", "src": "svcZ", "onDone": "b"}, {"id": "i2", "src": "svcA"}, {"id": "i3", "src": "svcM"}]}, "b": {}}},
     "invoke-id-equals-state-key": {"id": "m", "initial": "loading", "on": {"done.invoke.loading": {"actions": ["noteDone"]}}, "states": {
         "loading": {"invoke": {"id": "loading", "src": "svcOne", "onDone": {"target": "ready"}}}, "ready": {}}},
 }
@@ -352,8 +361,12 @@ def _listing(d):
     return out
 
 
-def _cli(args, cwd, timeout=120):
+def _cli(args, cwd, timeout=120, hashseed=None):
     env = dict(os.environ)
+    if hashseed is not None:
+        # every real CLI invocation is a new process with its own string-hash seed: regeneration and --check
+        # are run under seeds other than the one the first generation ran under
+        env["PYTHONHASHSEED"] = str(hashseed)
     env["PYTHONPATH"] = os.pathsep.join(p for p in sys.path if p)
     env["PYTHONDONTWRITEBYTECODE"] = "1"
     p = subprocess.run([sys.executable, "-W", "ignore", "-m", "xstate_statemachine.cli", "generate-template"] + args,
@@ -458,12 +471,12 @@ def check_case(case) -> CaseResult:
                 pos = _name_position(cfg, rep["error"]) if label != "hostile" and label != "corpus" else _errkind(rep["error"])
                 res.violate(f"generated-logic-does-not-bind|{shape}|{pos}", {"error": rep["error"]})
         # ---- idempotence and --check
-        rc2, text2 = _cli(args, tmp)
+        rc2, text2 = _cli(args, tmp, hashseed=101)
         again = _listing(out)
         if rc2 != 0 or again != after:
             changed = [k for k in set(after) | set(again) if after.get(k) != again.get(k)]
             res.violate(f"regeneration-not-byte-identical|{shape}", {"exit": rc2, "changed": changed[:4]})
-        rc3, text3 = _cli(args[:-1] + ["--check"], tmp)
+        rc3, text3 = _cli(args[:-1] + ["--check"], tmp, hashseed=202)
         if rc3 != 0:
             res.violate(f"check-reports-drift-on-fresh-output|{shape}", {"exit": rc3, "tail": text3[-300:]})
         res.extra_evals += 3
